@@ -3,6 +3,7 @@ package e2e
 import (
 	"bytes"
 	"encoding/json"
+	"errors"
 	"fmt"
 	"os"
 	"sort"
@@ -72,16 +73,6 @@ func runDKG(c *DKGCase, only string) (*dkgOutcome, *vkit.Violation, error) {
 		}
 		viol = vkit.Violf(kind, format, args...)
 	}
-	peers := map[string]string{}
-	ports := make([]string, c.Instances)
-	for i := 0; i < c.Instances; i++ {
-		a, err := FreePortOn(InstanceName(i))
-		if err != nil {
-			return o, nil, err
-		}
-		ports[i] = a[strings.LastIndex(a, ":")+1:]
-		peers[fmt.Sprint(i+1)] = InstanceName(i) + ":" + ports[i]
-	}
 	perms := map[string]map[string][]string{"alice": {WD: {"All"}, WA: {"All"}}}
 	ds := make([]*Daemon, c.Instances)
 	defer func() {
@@ -91,12 +82,41 @@ func runDKG(c *DKGCase, only string) (*dkgOutcome, *vkit.Violation, error) {
 			}
 		}
 	}()
-	for i := range ds {
-		d, err := NewDaemon(&Config{Permissions: perms, Cluster: true, Instance: i, Peers: peers, Port: ports[i]})
-		if err != nil {
-			return o, nil, fmt.Errorf("instance %d: %w", i, err)
+	for try := 0; ; try++ {
+		// the members' ports are fixed before they start (the peers table names them); if another test
+		// process takes one in between, start over with new ports
+		peers := map[string]string{}
+		ports := make([]string, c.Instances)
+		for i := 0; i < c.Instances; i++ {
+			a, err := FreePortOn(InstanceName(i))
+			if err != nil {
+				return o, nil, err
+			}
+			ports[i] = a[strings.LastIndex(a, ":")+1:]
+			peers[fmt.Sprint(i+1)] = InstanceName(i) + ":" + ports[i]
 		}
-		ds[i] = d
+		var startErr error
+		for i := range ds {
+			d, err := NewDaemon(&Config{Permissions: perms, Cluster: true, Instance: i, Peers: peers, Port: ports[i]})
+			if err != nil {
+				startErr = fmt.Errorf("instance %d: %w", i, err)
+
+				break
+			}
+			ds[i] = d
+		}
+		if startErr == nil {
+			break
+		}
+		for i, d := range ds {
+			if d != nil {
+				d.Close()
+				ds[i] = nil
+			}
+		}
+		if !errors.Is(startErr, ErrPortTaken) || try >= 4 {
+			return o, nil, startErr
+		}
 	}
 	alive := func(where string) bool {
 		for i, d := range ds {
@@ -180,6 +200,10 @@ func runDKG(c *DKGCase, only string) (*dkgOutcome, *vkit.Violation, error) {
 		m := members[c.Restart%len(members)]
 		m.d.Stop(true)
 		if err := m.d.Start(); err != nil {
+			if errors.Is(err, ErrPortTaken) {
+				return o, nil, nil // another test process took the member's port meanwhile: this case ends here
+			}
+
 			return o, nil, err
 		}
 		o.trace = append(o.trace, fmt.Sprintf("restart %d", m.id))
